@@ -453,7 +453,7 @@ func createHandler(router *server.Router) http.HandlerFunc {
 		}
 
 		method := server.HTTPMethod(r.Method)
-		route, params, err := router.Match(method, r.URL.Path)
+		route, params, err := router.MatchEscaped(method, r.URL.EscapedPath())
 
 		if err != nil {
 			w.Header().Set("Content-Type", "application/json")
